@@ -15,6 +15,7 @@ inductive Obs where
   | raisesChildProcessError      -- "the subprocess terminated without returning a result"
   | raisesOther                  -- any other error
   | returnsOther                 -- a value that is not the callee's result
+  | cancelled                    -- CancelledError (for the caller of `wait_for`: TimeoutError): the awaiting task was cancelled
 deriving DecidableEq, Repr
 
 /-- the observations the property allows for a callee behaviour.  A function that returns or raises is reproduced
@@ -30,6 +31,12 @@ def Spec.allowed : Callee → List Obs
   | .afterSendDeath v => [.returns v]
   | .midSendDeath v => [.returns v, .raisesChildProcessError, .raisesOther]
   | .spawns v => [.returns v]      -- "exactly what the function returns when run with the same arguments": run directly it returns v
+
+/-- … for a call: "exactly what the function returns or raises when run with the same arguments" — arguments the callable does
+    not accept make the call itself raise (a TypeError, id `e`), and that is then what the caller must get; arguments it accepts give
+    the callee's behaviour.  What `inspect.signature` reports about the callable is not part of the question. -/
+def Spec.allowedCall (fits : Bool) (c : Callee) (e : Nat) : List Obs :=
+  if fits then Spec.allowed c else [.raises e]
 
 /-- translation of the model's outcome into an observation: "the object the child sent" is the callee's value / exception -/
 def observe (c : Callee) : Outcome → Obs
@@ -47,11 +54,16 @@ def observe (c : Callee) : Outcome → Obs
   | .raisedCPE => .raisesChildProcessError
   | .raisedEof => .raisesOther
   | .raisedErr => .raisesOther
+  | .cancelled => .cancelled
 
-/-- besides the per-invocation observation the property demands of every scenario: all invocations end (no hang), and
-    afterwards no pipe end, reader registration or child process is left (`terminates = true`, `released = true` — the
-    driver reports these two constants as the specification's verdict). -/
-def Spec.mustTerminate : Bool := true
-def Spec.mustRelease : Bool := true
+/-- an invocation whose awaiting task the environment cancels while it is pending (task.cancel(), `asyncio.wait_for` running out):
+    the property's first clause has nothing to yield — the caller gets the cancellation —, its last clause applies in full: the
+    invocation ends, and no pipe end and no un-reaped child is left behind. -/
+def Spec.allowedCancelled : List Obs := [.cancelled]
+
+/-- "every invocation terminates": the specification names, for every callee behaviour, at least one observation the caller must
+    get, and none of them is "still pending" — an invocation that hangs meets none (this is what the driver reports as the
+    specification's `terminates`; "leaves nothing behind" is demanded of every invocation, whatever it observed) -/
+def Spec.mustTerminate (cs : List Callee) : Bool := cs.all (fun c => !(Spec.allowed c).isEmpty) && !Spec.allowedCancelled.isEmpty
 
 end PedVerif.Subproc
